@@ -16,7 +16,8 @@ def run(ctx):
     ctx.level = "model_checking"
     ctx.rule = ("cases = (variant std/x/secretbox/box, base message lengths, tamper <<kind, position, bit>>, code path); tamper sets enumerated by TLC "
                 "from AEAD_Tamper: every bit of every byte of the sealed output, AD, nonce and key; byte xor ff at every position; AD +1/-1 byte; "
-                "truncation 1..32 and extension 1..32; base plaintext lengths up to 80 (quick) / 600 (thorough); "
+                "truncation 1..32 and extension 1..32; correlated tag changes (same mask on byte k and k+8, on the same byte of 2..4 words, on both halves, all bytes; "
+                "half swap, rotation); base plaintext lengths up to 80 (quick) / 600 (thorough); "
                 "distinct = distinct (path, variant, lengths, tamper[, NaCl entry point])")
     ctx.assumptions = [
         "rejection is the model's prediction for every tampered input; in the model it is decided by evaluating AEAD!Open (TLC) on the EvalBases; "
